@@ -1,13 +1,26 @@
 """C15 Storage round-trip: key padding, stride-consistent lengths, offsets of
-parallel loading, dtype agreement."""
+parallel loading, dtype agreement.
+
+The constructs are located by ROLE (the call that creates the HDF5 node, the
+buffer that is wrapped by the returned RaggedArray, the store into that
+buffer, the pool map of the worker, the tuple that is returned ...), compared
+after expansion of temporaries (`xexpand`, an extension of FuncInfo.expand that
+also sees through `str.zfill/rjust` and `functools.partial`) and after
+keyword/positional normalisation of the library calls involved (`KW`).  Content
+comparisons are three-valued (match.classify / ck.decide): an accepted form
+discharges the obligation, a different pure function of the same operands is a
+VIOLATION, anything the rule cannot see through is ANALYSIS-INCOMPLETE."""
 import ast
+import copy
 
 from ..core import (AnalysisIncomplete, call_name, const_value, kwarg,
-                    names_loaded, params, param_default, target_names, u,
-                    walk_expr, walk_local)
+                    names_loaded, params, target_names, u, walk_expr,
+                    walk_local)
 from ..patterns import (Cmp, assigns_to, calls_in, check_empty_allocs,
                         check_warn_calls, conjuncts, finfo, returns_of,
                         subscript_stores)
+from ..match import C, canon, classify, match
+from ..cfg import Assume
 
 RA = 'enspara/ra/ra.py'
 LO = 'enspara/util/load.py'
@@ -31,241 +44,1276 @@ EXPLANATION = (
     'not decided.')
 
 
-def is_ceil_div(e, n_text, s_text='stride'):
-    txt = u(e).replace(' ', '')
-    n = n_text.replace(' ', '')
-    s = s_text
-    forms = ['(%s+%s-1)//%s' % (n, s, s), '(%s-1+%s)//%s' % (n, s, s), '(%s+(%s-1))//%s' % (n, s, s),
-             'math.ceil(%s/%s)' % (n, s), 'int(math.ceil(%s/%s))' % (n, s), '-(-%s//%s)' % (n, s),
-             'int(np.ceil(%s/%s))' % (n, s), 'len(range(0,%s,%s))' % (n, s), '(%s-1)//%s+1' % (n, s)]
-    return txt in forms
+# ---------------------------------------------------------------------------
+# helpers (candidates for promotion to sa/cfg.py / sa/match.py)
 
+_EXTRA_PURE_METHODS = {'zfill', 'rjust', 'rank', 'size'}     # str padding; mpi.rank()/mpi.size()
+_EXTRA_PURE_FUNCS = {'partial', 'reduce'}
+_COMPS = (ast.ListComp, ast.SetComp, ast.GeneratorExp, ast.DictComp)
+
+
+def _pure(v):
+    """normal.is_pure, plus string padding methods and functools.partial."""
+    from ..normal import PURE_FUNCS, PURE_METHODS, IMPURE_NP
+    for n in ast.walk(v):
+        if isinstance(n, (ast.Yield, ast.YieldFrom, ast.Await, ast.NamedExpr, ast.Lambda)):
+            return False
+        if isinstance(n, ast.Call):
+            cn = call_name(n) or ''
+            if isinstance(n.func, ast.Name):
+                if n.func.id not in PURE_FUNCS and n.func.id not in _EXTRA_PURE_FUNCS:
+                    return False
+            elif isinstance(n.func, ast.Attribute):
+                if cn.startswith(('np.', 'numpy.', 'scipy.', 'math.')):
+                    if cn in IMPURE_NP or '.random.' in cn:
+                        return False
+                elif n.func.attr in PURE_METHODS or n.func.attr in _EXTRA_PURE_METHODS:
+                    pass
+                else:
+                    return False
+            else:
+                return False
+    return True
+
+
+def _temp(fi, name_node):
+    """FuncInfo.temp_value with the extended purity: the defining expression
+    of a Name use that is a temporary (one reaching definition, pure value,
+    object never mutated in place, operands unchanged between definition and
+    use), else None."""
+    if not isinstance(name_node, ast.Name) or not isinstance(name_node.ctx, ast.Load):
+        return None
+    if name_node not in fi.stmt_of:
+        name_node = orig(fi, name_node)       # a copy (split_alternatives): back to the node of the function
+        if name_node is None:
+            return None
+    try:
+        defs = fi.defs_of_use(name_node)
+    except Exception:
+        return None
+    if len(defs) != 1:
+        return None
+    site = next(iter(defs))
+    if site in ('PARAM', 'UNBOUND') or not isinstance(site, (ast.Assign, ast.AnnAssign)):
+        return None
+    v = fi.def_value(site, name_node.id)
+    if v is None or isinstance(v, ast.GeneratorExp) or not _pure(v):
+        return None
+    if fi._mutated_in_place(name_node.id):
+        return None
+    use = fi.stmt(name_node)
+    for m in walk_expr(v):
+        if not (isinstance(m, ast.Name) and isinstance(m.ctx, ast.Load)):
+            continue
+        if fi.rd.defs_at(site, m.id) != fi.rd.defs_at(use, m.id):
+            return None
+        for ms in fi._mutated_in_place(m.id):
+            if ms is use or ms is site:
+                continue
+            if fi.cfg.reachable(site, ms, avoiding=[use]) and fi.cfg.reachable(ms, use, avoiding=[site]):
+                return None
+    return v
+
+
+def xexpand(fi, expr, stop=(), depth=8):
+    """A copy of `expr` with every temporary replaced by its definition
+    (recursively).  Names bound by an enclosing comprehension are left alone.
+    Copied Name nodes keep the source position of the original (see `orig`)."""
+    def ex(e, d, bound):
+        if isinstance(e, ast.Name):
+            if d > 0 and e.id not in stop and e.id not in bound and isinstance(e.ctx, ast.Load):
+                v = _temp(fi, e)
+                if v is not None:
+                    return ex(v, d - 1, bound)
+            return ast.copy_location(ast.Name(id=e.id, ctx=e.ctx), e)
+        if not isinstance(e, ast.AST):
+            return e
+        if isinstance(e, (ast.expr_context, ast.operator, ast.unaryop, ast.boolop, ast.cmpop)):
+            return e
+        if isinstance(e, _COMPS):
+            bound = set(bound)
+            for g in e.generators:
+                bound.update(target_names(g.target))
+        new = type(e)()
+        for f in e._fields:
+            val = getattr(e, f, None)
+            if isinstance(val, list):
+                setattr(new, f, [ex(x, d, bound) for x in val])
+            elif isinstance(val, ast.AST):
+                setattr(new, f, ex(val, d, bound))
+            else:
+                setattr(new, f, val)
+        for a in ('lineno', 'col_offset', 'end_lineno', 'end_col_offset'):
+            if hasattr(e, a):
+                setattr(new, a, getattr(e, a))
+        return new
+    return ex(expr, depth, frozenset())
+
+
+def orig(fi, name_node):
+    """The Name node of the analysed function a (copied / canonicalised) Name
+    node stems from: looked up by identifier and source position."""
+    idx = getattr(fi, '_c15_names', None)
+    if idx is None:
+        idx = {}
+        for n in ast.walk(fi.fn):
+            if isinstance(n, ast.Name):
+                idx.setdefault((n.id, getattr(n, 'lineno', None), getattr(n, 'col_offset', None)), n)
+        fi._c15_names = idx
+    if not isinstance(name_node, ast.Name):
+        return None
+    return idx.get((name_node.id, getattr(name_node, 'lineno', None), getattr(name_node, 'col_offset', None)))
+
+
+# positional parameter names of the library calls this property talks about
+_SIGS = {
+    'get_node': ('where', 'name'), 'create_carray': ('where', 'name', 'atom', 'shape'),
+    'zeros': ('shape', 'dtype'), 'empty': ('shape', 'dtype'), 'RaggedArray': ('array', 'lengths'),
+    'Pool': ('processes', 'initializer', 'initargs'), 'frombuffer': ('buffer', 'dtype'),
+    'open_file': ('filename', 'mode'), 'shared_array_like_trj': ('lengths', 'example_trj'),
+}
+
+
+def tail(call):
+    if not isinstance(call, ast.Call):
+        return None
+    if isinstance(call.func, ast.Attribute):
+        return call.func.attr
+    if isinstance(call.func, ast.Name):
+        return call.func.id
+    return None
+
+
+def callargs(call):
+    """{parameter name (or position): argument node} of a call, positional
+    arguments named through _SIGS; the nodes are the original ones."""
+    sig = _SIGS.get(tail(call), ())
+    out = {}
+    for i, a in enumerate(call.args):
+        if isinstance(a, ast.Starred):
+            break
+        out[sig[i] if i < len(sig) else i] = a
+    for k in call.keywords:
+        if k.arg is not None:
+            out[k.arg] = k.value
+    return out
+
+
+class _KW(ast.NodeTransformer):
+    """positional -> keyword form for the calls in _SIGS; `h.get_node('/' + k)`
+    and `h.get_node('/name')` -> `h.get_node(where='/', name=...)`; optionally
+    `x.shape[0]` -> `len(x)` (equal for the ndarrays that flow where it is used)."""
+
+    def __init__(self, lenify=False):
+        self.lenify = lenify
+
+    def visit_Call(self, node):
+        self.generic_visit(node)
+        sig = _SIGS.get(tail(node))
+        if sig and not any(isinstance(a, ast.Starred) for a in node.args) and len(node.args) <= len(sig):
+            have = {k.arg for k in node.keywords}
+            if not any(sig[i] in have for i in range(len(node.args))):
+                node.keywords = [ast.keyword(arg=sig[i], value=a) for i, a in enumerate(node.args)] + node.keywords
+                node.args = []
+        if tail(node) == 'get_node':
+            kw = {k.arg: k for k in node.keywords}
+            if 'where' in kw and 'name' not in kw and not node.args:
+                w = kw['where'].value
+                nm = None
+                if isinstance(w, ast.BinOp) and isinstance(w.op, ast.Add) and const_value(w.left) == '/':
+                    nm = w.right
+                elif isinstance(const_value(w), str) and const_value(w).startswith('/') and len(const_value(w)) > 1:
+                    nm = ast.Constant(value=const_value(w)[1:])
+                if nm is not None:
+                    kw['where'].value = ast.Constant(value='/')
+                    node.keywords.append(ast.keyword(arg='name', value=nm))
+        return node
+
+    def visit_Subscript(self, node):
+        self.generic_visit(node)
+        if self.lenify and isinstance(node.value, ast.Attribute) and node.value.attr == 'shape' \
+                and const_value(node.slice) == 0 and isinstance(node.ctx, ast.Load):
+            return ast.copy_location(ast.Call(func=ast.Name(id='len', ctx=ast.Load()), args=[node.value.value], keywords=[]), node)
+        return node
+
+
+def X(fi, e, stop=(), lenify=False, expand=True):
+    """Canonical tree of an expression: temporaries expanded, library calls
+    in keyword form, front-end canonical spellings."""
+    t = xexpand(fi, e, stop=stop) if expand else copy.deepcopy(e)
+    t = _KW(lenify).visit(t)
+    ast.fix_missing_locations(t)
+    return canon(t)
+
+
+def T(fi, e, **kw):
+    return u(X(fi, e, **kw))
+
+
+def resolve(fi, e):
+    """Defining expression of a single-definition Name (original nodes)."""
+    return fi.resolve(e) if isinstance(e, ast.Name) else e
+
+
+def enclosing(mod, node, kinds, stop=None):
+    n = mod.parent.get(node)
+    while n is not None and n is not stop and not isinstance(n, kinds):
+        if isinstance(n, (ast.FunctionDef, ast.AsyncFunctionDef)):
+            return None
+        n = mod.parent.get(n)
+    return n if isinstance(n, kinds) else None
+
+
+def guards_of(fi, stmt, within=None):
+    """[(test, polarity)] of the branch conditions known to hold whenever
+    `stmt` executes: the if-branches (sa.cfg.Assume nodes) that DOMINATE it -
+    syntactic nesting, inverted branches and early `continue`/`return`/`raise`
+    guard clauses alike.  With `within` (a loop) only tests inside that loop."""
+    out = []
+    for a in fi.cfg.dom.get(stmt, ()):
+        if not isinstance(a, Assume):
+            continue
+        if within is not None:
+            n = a.owner
+            while n is not None and n is not within:
+                n = fi.mod.parent.get(n)
+            if n is None:
+                continue
+        out.append((a.test, a.polarity))
+    return out
+
+
+def norm_test(t):
+    """A boolean test that is a single comparison after pushing negations
+    inwards, as that comparison (`not (a == b)` -> `a != b`)."""
+    cs = conjuncts(t, True)
+    if cs and len(cs) == 1 and isinstance(cs[0], Cmp):
+        c = cs[0]
+        return canon(ast.fix_missing_locations(ast.Compare(left=c.lhs, ops=[c.op()], comparators=[c.rhs])))
+    return t
+
+
+def guarded_by(guards, pred):
+    """Some enclosing guard implies an atomic comparison satisfying pred."""
+    for test, pol in guards:
+        cs = conjuncts(test, pol)
+        for c in cs or []:
+            if isinstance(c, Cmp) and pred(c):
+                return True
+    return False
+
+
+def is_ellipsis(e):
+    return (isinstance(e, ast.Name) and e.id == 'Ellipsis') or (isinstance(e, ast.Constant) and e.value is Ellipsis)
+
+
+def split_alternatives(fi, e):
+    """The expressions a value may be: a Name (anywhere in the expression)
+    with several simple reaching definitions is replaced by each of them, a
+    conditional expression by both arms - recursively.  The results are
+    copies whose Name nodes keep their source positions (see `orig`)."""
+    out = []
+
+    def subst(x, pred, new):
+        """copy of x with the first node satisfying pred replaced by new"""
+        done = []
+
+        class R(ast.NodeTransformer):
+            def generic_visit(self, node):
+                if not done and pred(node):
+                    done.append(1)
+                    return copy.deepcopy(new)
+                return super().generic_visit(node)
+
+            visit = generic_visit
+        return R().visit(copy.deepcopy(x))
+
+    def multi(x):
+        for n in walk_expr(x):
+            if isinstance(n, ast.Name) and isinstance(n.ctx, ast.Load):
+                on = n if n in fi.stmt_of else orig(fi, n)
+                if on is None:
+                    continue
+                try:
+                    defs = fi.defs_of_use(on)
+                except Exception:
+                    continue
+                if len(defs) < 2 or any(d in ('PARAM', 'UNBOUND') for d in defs):
+                    continue
+                vals = [fi.def_value(d, on.id) for d in defs]
+                if all(v is not None for v in vals):
+                    return n, vals
+        return None
+
+    def go(x, depth):
+        if depth > 0:
+            if isinstance(x, ast.Name):
+                on = x if x in fi.stmt_of else orig(fi, x)
+                try:
+                    defs = fi.defs_of_use(on) if on is not None else set()
+                except Exception:
+                    defs = set()
+                vals = [fi.def_value(d, on.id) if d not in ('PARAM', 'UNBOUND') else None for d in defs]
+                if defs and all(v is not None for v in vals):
+                    for v in vals:
+                        go(v, depth - 1)
+                    return
+            for n in walk_expr(x):
+                if isinstance(n, ast.IfExp):
+                    key = (u(n), getattr(n, 'lineno', None), getattr(n, 'col_offset', None))
+                    for arm in (n.body, n.orelse):
+                        go(subst(x, lambda m: isinstance(m, ast.IfExp) and (u(m), getattr(m, 'lineno', None), getattr(m, 'col_offset', None)) == key, arm), depth - 1)
+                    return
+            m = multi(x)
+            if m is not None:
+                n, vals = m
+                key = (n.id, getattr(n, 'lineno', None), getattr(n, 'col_offset', None))
+                for v in vals:
+                    go(subst(x, lambda k: isinstance(k, ast.Name) and (k.id, getattr(k, 'lineno', None), getattr(k, 'col_offset', None)) == key, v), depth - 1)
+                return
+            # a single-definition temporary may hide alternatives: look through it
+            t = xexpand(fi, x)
+            if u(t) != u(x):
+                go(t, depth - 1)
+                return
+        out.append(x)
+    go(e, 5)
+    return out
+
+
+CEIL_FORMS = ['(_N + _S - 1) // _S', '(_N - 1 + _S) // _S', '(_N + (_S - 1)) // _S', '(_S + _N - 1) // _S',
+              '(_S - 1 + _N) // _S', 'math.ceil(_N / _S)', 'int(math.ceil(_N / _S))', 'int(np.ceil(_N / _S))',
+              '-(-_N // _S)', '-(_N // -_S)', 'len(range(0, _N, _S))', 'len(range(_N)[::_S])',
+              '(_N - 1) // _S + 1', '1 + (_N - 1) // _S', '_N // _S + (_N % _S > 0)', '_N // _S + (_N % _S != 0)',
+              '_N // _S + bool(_N % _S)', '_N // _S + int(_N % _S != 0)', '_N // _S + int(_N % _S > 0)',
+              '_N // _S + (1 if _N % _S else 0)', '_N // _S + (1 if _N % _S > 0 else 0)', '_N // _S + (1 if _N % _S != 0 else 0)']
+
+
+def ceil_div(e, stride, scope):
+    """classify `e` (canonical tree) as ceil(<n> / stride): verdict as in
+    match.classify; on a match the bindings hold '_N'."""
+    return classify(e, CEIL_FORMS, binds={'_S': ast.Name(id=stride, ctx=ast.Load())}, scope=set(scope) | {stride})
+
+
+def single_comp(e):
+    """(elt, target, iter, ifs) of a list comprehension / generator with one
+    generator, else None."""
+    if isinstance(e, (ast.ListComp, ast.GeneratorExp)) and len(e.generators) == 1 and not e.generators[0].is_async:
+        g = e.generators[0]
+        return e.elt, g.target, g.iter, g.ifs
+    return None
+
+
+def node_key(fi, e):
+    """The key expression (canonical text) of `<handle>.get_node('/', key)`."""
+    t = X(fi, e, expand=False)
+    b = match("_H.get_node(where='/', name=_K)", t)
+    return u(b['_K']) if b is not None else None
+
+
+# ---------------------------------------------------------------------------
+# D1 / D4: ra.save
 
 def d1_keys(ck, mod):
     rule = 'C15.D1.key-padding'
+    F = 'save'
     fn = mod.func('save')
     ck.analysed(mod, fn)
-    nz = [s for s in assigns_to(fn, 'n_zeros') if isinstance(s, ast.Assign)]
-    ok = False
-    for s in nz:
-        v = s.value
-        if isinstance(v, ast.BinOp) and isinstance(v.op, ast.Add) and isinstance(const_value(v.right), int) and const_value(v.right) >= 0:
-            v = v.left
-        if u(v) in ('len(str(len(array.lengths)))', 'len(str(len(array)))', 'len(str(len(array.lengths) - 1))'):
-            ok = True
-    ck.check(ok, rule, mod, nz[0] if nz else fn, 'save', '; '.join(u(s) for s in nz),
-             'padding width >= number of digits of the row count',
-             'the zero-padding width must be at least len(str(<number of rows>)): with a fixed/smaller width, keys of '
-             'arrays with more rows sort as arr_10 < arr_2 and rows come back in the wrong order')
-    zf = [c for c in calls_in(fn) if isinstance(c.func, ast.Attribute) and c.func.attr == 'zfill']
-    ok = len(zf) == 1 and u(zf[0].func.value) == 'str(i)' and u(zf[0].args[0]) == 'n_zeros'
-    ck.check(ok, rule, mod, zf[0] if zf else fn, 'save', u(zf[0]) if zf else 'zfill', 'every key uses the same width and the row index',
-             'row keys must be tag + "_" + str(i).zfill(n_zeros)')
-    node = [c for c in calls_in(fn) if (call_name(c) or '').endswith('create_carray')]
-    ok = len(node) == 1 and u(kwarg(node[0], 'name')) == 't' and u(kwarg(node[0], 'shape')) == 'subarr.shape' and u(kwarg(node[0], 'atom')) == 'atom'
-    ck.check(ok, rule + '.node', mod, node[0] if node else fn, 'save', u(node[0])[:160] if node else 'create_carray', 'one node per row with the row\'s own shape', 'create_carray must use the padded key, the row shape and the data atom')
-    st = [s for s in walk_local(fn) if isinstance(s, ast.Assign) and u(s.targets[0]) == 'node[:]']
-    ck.check(len(st) == 1 and u(st[0].value) == 'subarr', rule + '.node', mod, st[0] if st else fn, 'save', u(st[0]) if st else 'node[:] = subarr', 'row data written whole', 'node[:] = subarr expected')
-    # D4 atom dtype
-    at = [s for s in assigns_to(fn, 'atom') if isinstance(s, ast.Assign)]
-    vals = sorted(u(s.value) for s in at)
-    ck.check(vals == ['tables.Atom.from_dtype(array._data.dtype)', 'tables.Atom.from_dtype(subarr.dtype)'], 'C15.D4.dtype', mod, at[0] if at else fn, 'save', str(vals),
-             'stored element type = dtype of the flat data (ragged) / of the array', 'the HDF5 atom must be built from the data dtype')
-    loop = [l for l in walk_local(fn) if isinstance(l, ast.For)]
-    ok = bool(loop) and u(loop[0].iter) == 'range(len(array))' and any(u(x) == 'subarr = array[i]' for x in loop[0].body)
-    ck.check(ok, rule + '.rows', mod, loop[0] if loop else fn, 'save', u(loop[0].iter) if loop else 'loop', 'rows written in index order', 'save must iterate i over range(len(array)) and write array[i]')
+    fi = finfo(mod, fn)
+    ps = params(fn)
+    if len(ps) < 2:
+        ck.missing(rule, 'save(filename, array, ...) signature')
+        return
+    ARR = ps[1]
+    TAG = ps[3] if len(ps) > 3 else '__'
+    cc = [c for c in calls_in(fn) if tail(c) == 'create_carray']
+    if len(cc) != 1:
+        ck.missing(rule, 'exactly one create_carray call in ra.save (found %d)' % len(cc))
+        return
+    c = cc[0]
+    a = callargs(c)
+    loop = enclosing(mod, c, (ast.For,))
+    if loop is None or 'name' not in a:
+        ck.missing(rule, 'row loop around create_carray(name=...) in ra.save')
+        return
+    # --- rows written in index order
+    v = classify(X(fi, loop.iter), ['range(len(%s))' % ARR, 'range(0, len(%s))' % ARR, 'range(0, len(%s), 1)' % ARR, 'enumerate(%s)' % ARR], scope={ARR})
+    ck.decide(v, rule + '.rows', mod, loop, F, 'for %s in %s' % (u(loop.target), u(loop.iter)), 'rows written in index order',
+              'save must iterate the row index over range(len(array)) and write array[i] under key i')
+    if v[0] != 'match':
+        return
+    if isinstance(loop.target, ast.Name):
+        I = loop.target.id
+        rows = {'%s[%s]' % (ARR, I)}
+    elif isinstance(loop.target, ast.Tuple) and len(loop.target.elts) == 2 and all(isinstance(e, ast.Name) for e in loop.target.elts):
+        I = loop.target.elts[0].id
+        rows = {'%s[%s]' % (ARR, I), loop.target.elts[1].id}
+    else:
+        ck.missing(rule + '.rows', 'loop target of the row loop')
+        return
+    # --- the key: tag + '_' + zero-padded row index
+    key = X(fi, a['name'])
+    forms = ["_T + '_' + str(_I).zfill(_W)", "_T + '_' + str(_I).rjust(_W, '0')", "'%s_%s' % (_T, str(_I).zfill(_W))",
+             "'%s_%s' % (_T, str(_I).rjust(_W, '0'))", "'{}_{}'.format(_T, str(_I).zfill(_W))", "'_'.join([_T, str(_I).zfill(_W)])",
+             "'_'.join((_T, str(_I).zfill(_W)))"]
+    v = classify(key, forms, scope={TAG, I, 'str'})
+    ck.decide(v, rule, mod, c, F, 'name=%s' % u(key), 'row key = tag + "_" + zero-padded row index',
+              'row keys must be tag + "_" + str(i).zfill(<width>): an unpadded index sorts arr_10 before arr_2')
+    if v[0] == 'match':
+        b = v[1]
+        ck.check(u(b['_I']) == I, rule, mod, c, F, 'key index %s' % u(b['_I']), 'the padded number is the row index',
+                 'the number in the key must be the row index %s of the loop that writes array[%s]' % (I, I))
+        _check_width(ck, mod, fi, fn, rule, b['_W'], ARR, loop)
+    # --- the node: one per row, the row's own shape, the row's data
+    if 'shape' in a:
+        ck.check(T(fi, a['shape']) in {r + '.shape' for r in rows}, rule + '.node', mod, c, F, 'shape=%s' % T(fi, a['shape']),
+                 'one node per row with the row\'s own shape', 'create_carray must use the shape of the row being written')
+    else:
+        ck.missing(rule + '.node', 'shape= of create_carray')
+    cst = fi.stmt(c)
+    NODE = cst.targets[0].id if isinstance(cst, ast.Assign) and len(cst.targets) == 1 and isinstance(cst.targets[0], ast.Name) else None
+    st = [(s, t) for s, t in subscript_stores(loop) if isinstance(s, ast.Assign) and NODE is not None and u(t.value) == NODE]
+    if len(st) != 1:
+        ck.missing(rule + '.node', 'store of the row into the node created by create_carray')
+    else:
+        s, t = st[0]
+        full = (isinstance(t.slice, ast.Slice) and t.slice.lower is None and t.slice.upper is None and t.slice.step is None) or is_ellipsis(t.slice)
+        val = T(fi, s.value)
+        if full and val in rows:
+            ck.ok(rule + '.node', mod, s, u(s), 'row data written whole')
+        else:
+            v = classify(X(fi, s.value), sorted(rows), scope={ARR, I}) if full else ('near', 1, None)
+            ck.decide(v, rule + '.node', mod, s, F, u(s), '', 'the node of row i must receive the whole row: node[:] = array[i]')
+    # --- D4 atom dtype
+    if 'atom' not in a:
+        ck.missing('C15.D4.dtype', 'atom= of create_carray')
+        return
+    alts = split_alternatives(fi, a['atom'])
+    okd = {'%s._data.dtype' % ARR} | {r + '.dtype' for r in rows}
+    for alt in alts:
+        t = X(fi, alt)
+        b = match('tables.Atom.from_dtype(_D)', t) or match('Atom.from_dtype(_D)', t)
+        if b is None:
+            ck.missing('C15.D4.dtype', 'atom is not built by tables.Atom.from_dtype(<dtype>): %s' % u(t)[:120])
+            continue
+        v = classify(b['_D'], sorted(okd), scope={ARR, I})
+        ck.decide(v, 'C15.D4.dtype', mod, c, F, 'atom=%s' % u(t), 'stored element type = dtype of the flat data (ragged) / of the row',
+                  'the HDF5 atom must be built from the dtype of the data that is written (array._data.dtype / array[i].dtype)')
+    ck.floor('C15.D4.dtype', len(alts), 1, 'definitions of the atom')
 
+
+def _check_width(ck, mod, fi, fn, rule, w, ARR, loop):
+    """The zfill width: every definition that reaches the key is
+    len(str(<row count>)) + k, k >= 0 (or a constant that covers the literal
+    row list the array was rebound to on that path)."""
+    F = 'save'
+    counts = ['len(%s.lengths)' % ARR, 'len(%s)' % ARR, '%s.lengths.shape[0]' % ARR]
+    counts = [C(x) for x in counts]
+    vals = []
+    on = orig(fi, w) if isinstance(w, ast.Name) else None
+    if on is not None:
+        for site in fi.defs_of_use(on):
+            if site in ('PARAM', 'UNBOUND'):
+                vals.append((site, None))
+            else:
+                vals.append((site, fi.def_value(site, on.id)))
+    else:
+        vals.append((None, w))
+    for site, val in vals:
+        where = site if isinstance(site, ast.AST) else loop
+        if val is None:
+            ck.missing(rule, 'definition of the padding width %s (%s)' % (u(w), site if isinstance(site, str) else u(site)[:80]))
+            continue
+        t = X(fi, val) if site is not None else val
+        k, n = None, None
+        for pat, sign in (('len(str(_N)) + _K', 1), ('_K + len(str(_N))', 1), ('len(str(_N)) - _K', -1), ('len(str(_N))', 0)):
+            b = match(pat, t)
+            if b is not None and (sign == 0 or isinstance(const_value(b['_K']), int)):
+                k = sign * const_value(b['_K']) if sign else 0
+                n = b['_N']
+                break
+        txt = u(site) if isinstance(site, ast.AST) else 'width %s' % u(t)
+        if n is not None:
+            nt = u(n)
+            m1 = match('_M - 1', n)
+            base_ok = nt in counts or (m1 is not None and u(m1['_M']) in counts)
+            if not base_ok:
+                v = classify(n, counts, scope={ARR})
+                ck.decide(v, rule, mod, where, F, txt, '', 'the padding width must be derived from the number of rows (len(array.lengths) / len(array))')
+                continue
+            ck.check(k >= 0, rule, mod, where, F, txt, 'padding width >= number of digits of the row count',
+                     'the zero-padding width must be at least len(str(<number of rows>)): with a fixed/smaller width, keys of '
+                     'arrays with more rows sort as arr_10 < arr_2 and rows come back in the wrong order')
+            continue
+        cv = const_value(t)
+        if isinstance(cv, int) and not isinstance(cv, bool):
+            # a constant width is fine only where the array is a literal list of rows
+            lits = [s for s in assigns_to(fn, ARR) if isinstance(s, ast.Assign) and isinstance(s.value, (ast.List, ast.Tuple))]
+            ok = False
+            for d in lits:
+                nrows = len(d.value.elts)
+                covers = nrows >= 1 and cv >= len(str(nrows - 1)) and cv >= 1
+                if isinstance(site, ast.AST) and covers and (
+                        (fi.cfg.reachable(site, d) and not fi.cfg.reachable(site, loop, avoiding=[d])) or fi.rd.defs_at(site, ARR) == {d}):
+                    ok = True
+            ck.check(ok, rule, mod, where, F, txt, 'constant width on the single-row path (array rebound to a literal row list)',
+                     'a fixed padding width does not cover every row count: the zero-padding width must be at least '
+                     'len(str(<number of rows>)), else keys of arrays with more rows sort as arr_10 < arr_2')
+            continue
+        v = classify(t, ['len(str(%s))' % x for x in counts] + ['len(str(%s)) + 1' % x for x in counts], scope={ARR})
+        ck.decide(v, rule, mod, where, F, txt, '', 'the zero-padding width must be len(str(<number of rows>)) + k, k >= 0')
+    ck.floor(rule, len(vals), 1, 'definitions of the padding width')
+
+
+# ---------------------------------------------------------------------------
+# D2 / D3 / D4: ra.load
 
 def d_load(ck, mod):
+    F = 'load'
     fn = mod.func('load')
     ck.analysed(mod, fn)
     fi = finfo(mod, fn)
-    # D2 lengths
-    ln = [s for s in assigns_to(fn, 'lengths') if isinstance(s, ast.Assign)]
-    ok = len(ln) == 1 and isinstance(ln[0].value, ast.ListComp) and is_ceil_div(ln[0].value.elt, 'shape[0]') and \
-        u(ln[0].value.generators[0].iter) == 'shapes'
-    ck.check(ok, 'C15.D2.stride-lengths', mod, ln[0] if ln else fn, 'load', u(ln[0]) if ln else 'lengths',
-             'row lengths = ceil(rows / stride)', 'with a stride the row lengths must be ceil(shape[0] / stride): floor division loses the '
-             'last partial step, the unstrided length overstates it, and the lengths no longer partition the data')
-    sh = [s for s in assigns_to(fn, 'shapes') if isinstance(s, ast.Assign)]
-    ok = len(sh) == 1 and isinstance(sh[0].value, ast.ListComp) and u(sh[0].value.generators[0].iter) == 'keys'
-    ck.check(ok, 'C15.D3.same-keys', mod, sh[0] if sh else fn, 'load', u(sh[0])[:140] if sh else 'shapes', 'shapes (hence lengths) follow the key sequence', 'shapes must be gathered by iterating over keys')
-    loops = [l for l in walk_local(fn) if isinstance(l, ast.For) and any(isinstance(x, ast.Assign) and u(x.targets[0]).startswith('concat[') for x in l.body)]
-    if len(loops) != 1:
+    ps = params(fn)
+    if len(ps) < 3:
+        ck.missing('C15.D3.buffer', 'load(input_name, keys, stride) signature')
+        return
+    KEYS, STRIDE = ps[1], ps[2]
+
+    def strided(e):
+        return isinstance(e, ast.Subscript) and isinstance(e.slice, ast.Slice) and isinstance(e.slice.step, ast.Name) and \
+            e.slice.step.id == STRIDE and (e.slice.lower is None or const_value(e.slice.lower) == 0) and e.slice.upper is None
+
+    # --- the result: RaggedArray(array=<buffer>, lengths=<lengths>)
+    main = []
+    for r in returns_of(fn):
+        rv = resolve(fi, r.value) if r.value is not None else None
+        if isinstance(rv, ast.Call) and tail(rv) == 'RaggedArray':
+            main.append((r, rv))
+    if len(main) != 1:
+        ck.missing('C15.D3.buffer', 'the return of RaggedArray(array=<buffer>, lengths=<lengths>) in ra.load (found %d)' % len(main))
+        return
+    ret, rcall = main[0]
+    ra_args = callargs(rcall)
+    CON, LEN = ra_args.get('array'), ra_args.get('lengths')
+    if not (isinstance(CON, ast.Name) and isinstance(LEN, ast.Name)):
+        ck.missing('C15.D3.buffer', 'RaggedArray(array=<name>, lengths=<name>) in the return of ra.load: %s' % u(rcall)[:120])
+        return
+    ck.ok('C15.D3.buffer', mod, ret, u(ret), 'result wraps the filled buffer with the strided lengths')
+
+    # --- D2 lengths = [ceil(shape[0] / stride) for shape in shapes], shapes gathered over keys
+    K1 = None
+    SH = None
+    lv = resolve(fi, LEN)
+    lsite = fi.stmt(lv) if lv is not LEN else ret
+    sc = single_comp(lv)
+    if sc is None:
+        ck.missing('C15.D2.stride-lengths', 'lengths of ra.load are not a list comprehension: %s' % u(lv)[:120])
+    else:
+        elt, tgt, it, ifs = sc
+        tn = set(target_names(tgt))
+        v = ceil_div(X(fi, elt), STRIDE, tn)
+        n_ok = False
+        if v[0] == 'match':
+            nt = u(v[1]['_N'])
+            if isinstance(tgt, ast.Name) and nt == '%s[0]' % tgt.id:
+                n_ok = 'shape'
+            elif isinstance(tgt, ast.Name) and match("_H.get_node(where='/', name=%s).shape[0]" % tgt.id, v[1]['_N']) is not None:
+                n_ok = 'key'
+            elif isinstance(tgt, ast.Name) and match("len(_H.get_node(where='/', name=%s))" % tgt.id, v[1]['_N']) is not None:
+                n_ok = 'key'
+            else:
+                v = ('far', 1, None)
+        ck.decide(v, 'C15.D2.stride-lengths', mod, lsite, F, u(lsite)[:200], 'row lengths = ceil(rows / stride)',
+                  'with a stride the row lengths must be ceil(shape[0] / stride): floor division loses the '
+                  'last partial step, the unstrided length overstates it, and the lengths no longer partition the data')
+        if ifs:
+            ck.bad('C15.D3.same-keys', mod, lsite, F, u(lsite)[:200], 'the lengths comprehension filters its sequence: lengths and rows are no longer aligned')
+        if n_ok == 'key':
+            K1 = it
+            ck.check(isinstance(it, ast.Name) and it.id == KEYS, 'C15.D3.same-keys', mod, lsite, F, u(lsite)[:140],
+                     'lengths follow the key sequence', 'the lengths must be gathered by iterating over keys')
+        elif n_ok == 'shape':
+            SH = it
+            sv = resolve(fi, it)
+            ssite = fi.stmt(sv) if sv is not it else lsite
+            sc2 = single_comp(sv)
+            if sc2 is None or not isinstance(sc2[1], ast.Name):
+                ck.missing('C15.D3.same-keys', 'the shapes the lengths are computed from are not a comprehension over keys: %s' % u(sv)[:120])
+            else:
+                e2, t2, it2, ifs2 = sc2
+                ok = match("_H.get_node(where='/', name=%s).shape" % t2.id, X(fi, e2)) is not None and not ifs2
+                if not ok:
+                    ck.missing('C15.D3.same-keys', 'shape comprehension not recognised: %s' % u(sv)[:120])
+                else:
+                    K1 = it2
+                    v = classify(it2, [KEYS], scope={KEYS})
+                    ck.decide(v, 'C15.D3.same-keys', mod, ssite, F, u(ssite)[:140], 'shapes (hence lengths) follow the key sequence',
+                              'shapes must be gathered by iterating over keys in the given order')
+
+    # --- the buffer: np.zeros(<(sum(lengths),) + trailing dims>, dtype=<stored dtype>)
+    DT = None
+    cdefs = fi.defs_of_use(CON)
+    csite = next(iter(cdefs)) if len(cdefs) == 1 else None
+    cval = fi.def_value(csite, CON.id) if isinstance(csite, ast.AST) else None
+    if not isinstance(cval, ast.Call):
+        ck.missing('C15.D3.buffer', 'single allocation of the buffer %s' % CON.id)
+    else:
+        cn = call_name(cval) or ''
+        ba = callargs(cval)
+        if cn in ('np.zeros', 'numpy.zeros') and 'shape' in ba:
+            ck.ok('C15.D3.buffer', mod, csite, u(csite), 'buffer is zero-initialised')
+        elif cn in ('np.empty', 'numpy.empty', 'np.ndarray'):
+            ck.bad('C15.D3.buffer', mod, csite, F, u(csite), 'the buffer must be np.zeros(concat_shape, dtype=dtype): an uninitialised buffer exposes heap '
+                   'garbage wherever the fill does not reach')
+        else:
+            ck.missing('C15.D3.buffer', 'allocation of the buffer not recognised: %s' % u(csite)[:120])
+        if 'shape' in ba:
+            L = LEN.id
+            sh = X(fi, ba['shape'], stop=(L,))
+            forms = ['(sum(%s),) + _S[0][1:]' % L, '(sum(%s), *_S[0][1:])' % L, '(sum(%s),) + tuple(_S[0][1:])' % L,
+                     'tuple([sum(%s)] + list(_S[0][1:]))' % L, '(sum(%s),) + _S[0][1:]' % L]
+            scope = {L} | ({SH.id} if isinstance(SH, ast.Name) else set())
+            v = classify(sh, forms, scope=scope)
+            if v[0] == 'match' and isinstance(SH, ast.Name) and u(v[1]['_S']) != SH.id:
+                v = ('far', 1, None)
+            ck.decide(v, 'C15.D3.buffer', mod, csite, F, 'shape=%s' % u(sh), 'buffer length = sum of the strided lengths',
+                      'the buffer shape must be (sum(lengths),) + trailing dims of the stored rows')
+            ls = [orig(fi, n) for n in ast.walk(sh) if isinstance(n, ast.Name) and n.id == L]
+            ck.check(bool(ls) and all(n is not None and fi.same_value(n, LEN) for n in ls), 'C15.D3.buffer', mod, csite, F, 'lengths at buffer size vs lengths returned',
+                     'one definition of lengths sizes the buffer and is returned', 'the lengths that size the buffer are not the lengths that are returned')
+        DT = ba.get('dtype')
+        if DT is None:
+            ck.bad('C15.D4.dtype', mod, csite, F, u(csite), 'the buffer must be allocated with the stored dtype (dtype=...): the default float64 changes the element type')
+
+    # --- D4 dtype taken from a stored node and checked equal across keys
+    if isinstance(DT, ast.Name):
+        dv = resolve(fi, DT)
+        dsite = fi.stmt(dv) if dv is not DT else csite
+        b = match("_H.get_node(where='/', name=_K).dtype", X(fi, dv, stop=(KEYS,)))
+        ok = b is not None and (match('%s[_J]' % KEYS, b['_K']) is not None)
+        if ok:
+            ck.ok('C15.D4.dtype', mod, dsite, u(dsite), 'dtype taken from a stored node')
+        else:
+            ck.missing('C15.D4.dtype', 'definition of the buffer dtype not recognised: %s' % u(dv)[:120])
+        found = 0
+        for n in walk_local(fn):
+            if not (isinstance(n, ast.If) and any(isinstance(x, ast.Raise) for x in n.body)):
+                continue
+            q = _quantified_mismatch(n.test)
+            if q is None:
+                continue
+            cmp_, tgt, it = q
+            sides = [X(fi, cmp_.lhs), X(fi, cmp_.rhs)]
+            texts = [u(s) for s in sides]
+            if DT.id not in texts:
+                continue
+            other = sides[1 - texts.index(DT.id)]
+            if not isinstance(tgt, ast.Name) or match("_H.get_node(where='/', name=%s).dtype" % tgt.id, other) is None:
+                continue
+            found += 1
+            dn = [x for x in ast.walk(n.test) if isinstance(x, ast.Name) and x.id == DT.id]
+            ok = isinstance(it, ast.Name) and it.id == KEYS and fi.cfg.dominates(n, ret) and all(fi.same_value(x, DT) for x in dn)
+            ck.check(ok, 'C15.D4.dtype', mod, n, F, u(n.test)[:140], 'all rows must share one dtype, else raise',
+                     'load must reject (before returning) any key whose dtype differs from the buffer dtype')
+        if not found:
+            ck.bad('C15.D4.dtype', mod, csite or fn, F, 'dtype check over keys', 'load must reject keys with differing dtypes: no `if <some key has another dtype>: raise` found')
+    elif DT is not None:
+        ck.missing('C15.D4.dtype', 'dtype= of the buffer is not a name: %s' % u(DT)[:80])
+
+    # --- the fill loop
+    stores = [(s, t) for s, t in subscript_stores(fn, CON.id)]
+    if len(stores) != 1:
+        ck.missing('C15.D3.fill', 'exactly one store into the buffer %s (found %d)' % (CON.id, len(stores)))
+        return
+    st, tg = stores[0]
+    loop = enclosing(mod, st, (ast.For,))
+    if loop is None or not isinstance(st, ast.Assign):
         ck.missing('C15.D3.fill', 'fill loop of ra.load')
         return
-    loop = loops[0]
-    ck.check(u(loop.iter) == 'keys', 'C15.D3.same-keys', mod, loop, 'load', 'for %s in %s' % (u(loop.target), u(loop.iter)), 'the fill loop iterates the same key sequence', 'the fill loop must iterate over keys (the sequence that produced the lengths)')
-    if sh:
-        k1 = [x for x in ast.walk(sh[0].value.generators[0].iter) if isinstance(x, ast.Name)][0]
-        k2 = loop.iter
-        ck.check(isinstance(k2, ast.Name) and fi.same_value(k1, k2), 'C15.D3.same-keys', mod, loop, 'load', 'keys at lengths vs keys at fill',
+    it = loop.iter
+    KV = None
+    if isinstance(it, ast.Name) and isinstance(loop.target, ast.Name):
+        K2, KV = it, loop.target.id
+    elif isinstance(it, ast.Call) and call_name(it) == 'enumerate' and len(it.args) == 1 and isinstance(it.args[0], ast.Name) and \
+            isinstance(loop.target, ast.Tuple) and len(loop.target.elts) == 2 and isinstance(loop.target.elts[1], ast.Name):
+        K2, KV = it.args[0], loop.target.elts[1].id
+    else:
+        K2 = None
+    if K2 is None:
+        v = classify(it, [KEYS], scope={KEYS})
+        ck.decide(v, 'C15.D3.same-keys', mod, loop, F, 'for %s in %s' % (u(loop.target), u(it)), '',
+                  'the fill loop must iterate over keys in the given order (the sequence that produced the lengths)')
+        return
+    ck.check(K2.id == KEYS, 'C15.D3.same-keys', mod, loop, F, 'for %s in %s' % (u(loop.target), u(it)), 'the fill loop iterates the same key sequence',
+             'the fill loop must iterate over keys (the sequence that produced the lengths)')
+    if isinstance(K1, ast.Name):
+        ck.check(fi.same_value(K1, K2), 'C15.D3.same-keys', mod, loop, F, 'keys at lengths vs keys at fill',
                  'both uses see one definition of keys', 'keys is redefined between computing the lengths and filling the buffer')
+    ck.check(fi.cfg.dominates(loop, ret), 'C15.D3.fill', mod, loop, F, 'fill loop before return', 'the buffer is filled before it is returned',
+             'the fill loop does not precede the return on every path')
     # keys never reordered when supplied by the caller
-    kd = [s for s in assigns_to(fn, 'keys')]
-    for s in kd:
-        g = mod.parent.get(s)
-        ok = isinstance(g, ast.If) and u(g.test) == 'keys is Ellipsis'
-        ck.check(ok, 'C15.D3.key-order', mod, s, 'load', u(s)[:120], 'keys are only defaulted (under `keys is Ellipsis`), never rewritten',
-                 'a caller-supplied key list must be used in the given order: redefining `keys` outside the `keys is Ellipsis` '
-                 'default (e.g. sorting it) returns rows - and their lengths - in an order the caller did not ask for')
+    for s in assigns_to(fn, KEYS):
+        if guarded_by(guards_of(fi, s), lambda c: c.op is ast.Is and ((u(c.lhs) == KEYS and is_ellipsis(c.rhs)) or (u(c.rhs) == KEYS and is_ellipsis(c.lhs)))) \
+                or guarded_by(guards_of(fi, s), lambda c: c.op is ast.Eq and u(c.lhs) == KEYS and is_ellipsis(c.rhs)):
+            ck.ok('C15.D3.key-order', mod, s, u(s)[:120], 'keys are only defaulted (under `keys is Ellipsis`)')
+            continue
+        val = s.value if isinstance(s, (ast.Assign, ast.AnnAssign)) else None
+        v = classify(X(fi, val), ['list(%s)' % KEYS, 'tuple(%s)' % KEYS, '[_K for _K in %s]' % KEYS, '%s[:]' % KEYS, 'list(%s).copy()' % KEYS],
+                     scope={KEYS}) if val is not None else ('far', 1, None)
+        ck.decide(v, 'C15.D3.key-order', mod, s, F, u(s)[:120], 'keys are copied, not reordered',
+                  'a caller-supplied key list must be used in the given order: redefining `keys` outside the `keys is Ellipsis` '
+                  'default (e.g. sorting it) returns rows - and their lengths - in an order the caller did not ask for')
+    for c in calls_in(fn):
+        if isinstance(c.func, ast.Attribute) and isinstance(c.func.value, ast.Name) and c.func.value.id == KEYS and \
+                c.func.attr in ('sort', 'reverse', 'pop', 'remove', 'insert', 'append', 'extend', 'clear'):
+            ck.bad('C15.D3.key-order', mod, c, F, u(c), 'the key list is modified in place (%s): rows must come back in the order the caller asked for '
+                   '(and the caller\'s list must not change)' % c.func.attr)
+    # each row is read with [::stride] under the loop key
+    V = st.value
+    vr = resolve(fi, V)
+    vsite = fi.stmt(vr) if vr is not V else st
+    if isinstance(vr, ast.Subscript) and node_key(fi, vr.value) is not None:
+        ck.check(strided(vr), 'C15.D2.stride-data', mod, vsite, F, u(vsite), 'each row is read with [::stride]', 'rows must be read as node[::stride]')
+        ck.check(node_key(fi, vr.value) == KV, 'C15.D3.same-keys', mod, vsite, F, u(vsite), 'the row read is the node of the loop key',
+                 'the row written in iteration `%s` must be the node named %s' % (KV, KV))
+    else:
+        ck.missing('C15.D2.stride-data', 'value stored into the buffer is not <handle>.get_node(key)[::stride]: %s' % u(vr)[:120])
     # running offsets
-    body = loop.body
-    nd = [s for s in body if isinstance(s, ast.Assign) and u(s.targets[0]) == 'node']
-    ok = len(nd) == 1 and u(nd[0].value).endswith('[::stride]') and 'name=%s' % u(loop.target) in u(nd[0].value)
-    ck.check(ok, 'C15.D2.stride-data', mod, nd[0] if nd else loop, 'load', u(nd[0]) if nd else 'node', 'each row is read with [::stride]', 'rows must be read as node[::stride]')
-    en = [s for s in body if isinstance(s, ast.Assign) and u(s.targets[0]) == 'end']
-    st = [s for s in body if isinstance(s, ast.Assign) and u(s.targets[0]) == 'concat[start:end]']
-    ad = [s for s in body if isinstance(s, ast.Assign) and u(s.targets[0]) == 'start' and u(s.value) == 'end']
-    ok = len(en) == 1 and u(en[0].value) == 'start + len(node)' and len(st) == 1 and u(st[0].value) == 'node' and len(ad) == 1 and \
-        body.index(en[0]) < body.index(st[0]) < body.index(ad[0])
-    init = [s for s in walk_local(fn) if isinstance(s, ast.Assign) and u(s.targets[0]) == 'start' and u(s.value) == '0']
-    ck.check(ok and len(init) == 1, 'C15.D3.fill', mod, st[0] if st else loop, 'load', '; '.join(u(x) for x in body)[:200],
-             'end = start + len(row); concat[start:end] = row; start = end; start initialised to 0',
-             'the concatenated buffer must be filled with running offsets (end = start + len(node); concat[start:end] = node; start = end)')
-    cc = [s for s in assigns_to(fn, 'concat') if isinstance(s, ast.Assign)]
-    ok = len(cc) == 1 and call_name(cc[0].value) == 'np.zeros' and u(cc[0].value.args[0]) == 'concat_shape' and u(kwarg(cc[0].value, 'dtype')) == 'dtype'
-    ck.check(ok, 'C15.D3.buffer', mod, cc[0] if cc else fn, 'load', u(cc[0]) if cc else 'concat', 'buffer is zero-initialised with the stored dtype', 'the buffer must be np.zeros(concat_shape, dtype=dtype)')
-    cs = [s for s in assigns_to(fn, 'concat_shape') if isinstance(s, ast.Assign)]
-    ok = len(cs) == 1 and u(cs[0].value).replace(' ', '') in ('(sum(lengths),)+shapes[0][1:]',)
-    ck.check(ok, 'C15.D3.buffer', mod, cs[0] if cs else fn, 'load', u(cs[0]) if cs else 'concat_shape', 'buffer length = sum of the strided lengths', 'concat_shape must be (sum(lengths),) + trailing dims')
-    r = [x for x in returns_of(fn) if isinstance(x.value, ast.Call) and (call_name(x.value) or '').endswith('RaggedArray') and 'concat' in u(x.value)]
-    ok = len(r) == 1 and u(kwarg(r[0].value, 'lengths')) == 'lengths' and u(kwarg(r[0].value, 'array')) == 'concat'
-    ck.check(ok, 'C15.D3.buffer', mod, r[0] if r else fn, 'load', u(r[0]) if r else 'return', 'result wraps the filled buffer with the strided lengths', 'load must return RaggedArray(array=concat, lengths=lengths, ...)')
-    # D4 dtype equality across keys
-    dt = [n for n in walk_local(fn) if isinstance(n, ast.If) and 'dtype ==' in u(n.test) and any(isinstance(x, ast.Raise) for x in n.body)]
-    ck.check(len(dt) == 1 and 'for k in keys' in u(dt[0].test), 'C15.D4.dtype', mod, dt[0] if dt else fn, 'load', u(dt[0].test)[:140] if dt else 'dtype check',
-             'all rows must share one dtype, else raise', 'load must reject keys with differing dtypes')
-    dd = [s for s in assigns_to(fn, 'dtype') if isinstance(s, ast.Assign)]
-    ck.check(len(dd) == 1 and 'keys[0]' in u(dd[0].value) and u(dd[0].value).endswith('.dtype'), 'C15.D4.dtype', mod, dd[0] if dd else fn, 'load', u(dd[0]) if dd else 'dtype', 'dtype taken from the stored node', 'dtype must come from the stored node')
+    sl = tg.slice
+    if not (isinstance(sl, ast.Slice) and sl.step is None and isinstance(sl.lower, ast.Name) and sl.upper is not None):
+        ck.missing('C15.D3.fill', 'buffer store is not %s[<start>:<end>] = <row>: %s' % (CON.id, u(st)))
+        return
+    LOW = sl.lower.id
+    vt = T(fi, V, lenify=True)
+    up = X(fi, sl.upper, lenify=True)
+    body_txt = '; '.join(u(x) for x in loop.body)[:200]
+    ups = ['%s + len(%s)' % (LOW, vt), 'len(%s) + %s' % (vt, LOW)]
+    v = classify(up, ups, scope={LOW} | names_loaded(X(fi, V)))
+    ck.decide(v, 'C15.D3.fill', mod, st, F, body_txt, 'window = [start, start + len(row))',
+              'the concatenated buffer must be filled with running offsets (end = start + len(node); concat[start:end] = node; start = end)')
+    inloop = [s for s in assigns_to(loop, LOW)]
+    if len(inloop) != 1:
+        if not inloop:
+            ck.bad('C15.D3.fill', mod, st, F, body_txt, 'the running offset %s is never advanced inside the fill loop: every row is written to the same window' % LOW)
+        else:
+            ck.missing('C15.D3.fill', 'single advance of the running offset %s in the fill loop (found %d)' % (LOW, len(inloop)))
+    else:
+        adv = inloop[0]
+        if isinstance(adv, ast.Assign):
+            at = T(fi, adv.value, lenify=True)
+            okv = at == u(up) or at in [C(x) for x in ups]
+            scope = {LOW} | names_loaded(X(fi, V))
+            v = ('match', {}) if okv else classify(X(fi, adv.value, lenify=True), ups, scope=scope)
+        elif isinstance(adv, ast.AugAssign) and isinstance(adv.op, ast.Add):
+            okv = T(fi, adv.value, lenify=True) == C('len(%s)' % vt)
+            v = ('match', {}) if okv else classify(X(fi, adv.value, lenify=True), ['len(%s)' % vt], scope=names_loaded(X(fi, V)))
+        else:
+            v = ('far', 1, None)
+        ck.decide(v, 'C15.D3.fill', mod, adv, F, u(adv), 'start advances to the end of the window just written',
+                  'after each row the running offset must advance by the length of that row (start = end)')
+        ck.check(fi.cfg.dominates(st, adv), 'C15.D3.fill', mod, adv, F, 'store before advance', 'the row is stored before the offset advances',
+                 'the offset is advanced before the row is stored: the window no longer starts where the previous row ended')
+        outer = [d for d in fi.rd.defs_at(loop, LOW) if d is not adv]
+        ok = len(outer) == 1 and isinstance(outer[0], ast.AST) and const_value(fi.def_value(outer[0], LOW)) == 0 and \
+            not isinstance(const_value(fi.def_value(outer[0], LOW)), bool)
+        ck.check(ok, 'C15.D3.fill', mod, outer[0] if outer and isinstance(outer[0], ast.AST) else loop, F,
+                 '; '.join(u(d) if isinstance(d, ast.AST) else str(d) for d in outer) or 'initial offset', 'start initialised to 0',
+                 'the running offset must start at 0 before the fill loop')
     check_warn_calls(ck, 'C15.D5.warn-wellformed', mod, [('load', fn)])
     # old-style / single-key paths keep the stride
     for x in returns_of(fn):
-        t = u(x.value)
-        if t in ('a[::stride]', "handle.get_node('/arr_0')[::stride]"):
-            ck.ok('C15.D2.stride-data', mod, x, t, 'legacy paths apply the stride')
+        if x is ret or x.value is None:
+            continue
+        if strided(resolve(fi, x.value)):
+            ck.ok('C15.D2.stride-data', mod, x, u(x.value), 'legacy paths apply the stride')
 
+
+def _quantified_mismatch(test):
+    """`not all(a == b for t in it)` / `any(a != b for t in it)` (list or
+    generator) -> (Cmp a != b, target, iter): the test is true iff some
+    element violates the equality."""
+    pol = True
+    while isinstance(test, ast.UnaryOp) and isinstance(test.op, ast.Not):
+        test, pol = test.operand, not pol
+    if not (isinstance(test, ast.Call) and isinstance(test.func, ast.Name) and test.func.id in ('all', 'any') and len(test.args) == 1):
+        return None
+    sc = single_comp(test.args[0])
+    if sc is None or sc[3]:
+        return None
+    elt, tgt, it, _ = sc
+    cs = conjuncts(elt, True)
+    if not cs or len(cs) != 1 or not isinstance(cs[0], Cmp):
+        return None
+    c = cs[0]
+    if test.func.id == 'all':
+        if pol:
+            return None            # raises when everything is equal
+        c = c.negated()
+    elif not pol:
+        return None
+    if c.op is not ast.NotEq:
+        return None
+    return c, tgt, it
+
+
+# ---------------------------------------------------------------------------
+# D2: sound_trajectory
 
 def d_sound(ck, mod):
-    fn = mod.func('sound_trajectory')
+    F = 'sound_trajectory'
+    fn = mod.func(F)
     ck.analysed(mod, fn)
-    r = returns_of(fn)
-    ok = len(r) == 1 and is_ceil_div(r[0].value, 'n_frames')
-    ck.check(ok, 'C15.D2.stride-lengths', mod, r[0] if r else fn, 'sound_trajectory', u(r[0]) if r else '?', 'sounded length = ceil(n_frames / stride)',
-             'sound_trajectory must return ceil(n_frames / stride)')
+    fi = finfo(mod, fn)
+    ps = params(fn)
+    if len(ps) < 2:
+        ck.missing('C15.D2.stride-lengths', 'sound_trajectory(trj, stride, ...) signature')
+        return
+    TRJ, STRIDE = ps[0], ps[1]
+    handles = set()
+    for w in walk_local(fn):
+        if isinstance(w, ast.With):
+            for it in w.items:
+                if isinstance(it.optional_vars, ast.Name) and isinstance(it.context_expr, ast.Call) and \
+                        call_name(it.context_expr) == 'md.open' and it.context_expr.args and u(it.context_expr.args[0]) == TRJ:
+                    handles.add(it.optional_vars.id)
+    r = [x for x in returns_of(fn) if x.value is not None]
+    if len(r) != 1:
+        ck.missing('C15.D2.stride-lengths', 'single return of sound_trajectory')
+        return
+    t = X(fi, r[0].value)
+    v = ceil_div(t, STRIDE, handles | {TRJ})
+    if v[0] == 'match':
+        b = match('len(_F)', v[1]['_N'])
+        if not (b is not None and u(b['_F']) in handles):
+            v = classify(v[1]['_N'], ['len(%s)' % h for h in sorted(handles)], scope=handles | {TRJ})
+            if v[0] == 'match':
+                v = ('far', 1, None)
+    ck.decide(v, 'C15.D2.stride-lengths', mod, r[0], F, 'return %s' % u(t), 'sounded length = ceil(n_frames / stride)',
+              'sound_trajectory must return ceil(n_frames / stride) with n_frames = len(<opened trajectory>)')
+
+
+# ---------------------------------------------------------------------------
+# D3: load_as_concatenated and its worker
+
+MAPS_ORDERED = ('map_async', 'map', 'imap', 'starmap', 'starmap_async')
+MAPS = MAPS_ORDERED + ('imap_unordered',)
+WORKER = '_load_to_position'
+
+
+def _view_of(fi, e, shape_name=None):
+    """`_tonumpyarray(<sa>).reshape(<shape>)` / `np.reshape(_tonumpyarray(<sa>), <shape>)` -> (sa text, shape text)."""
+    t = X(fi, resolve(fi, e))
+    b = match('_tonumpyarray(_SA).reshape(_SH)', t) or match('np.reshape(_tonumpyarray(_SA), _SH)', t) or \
+        match('_tonumpyarray(_SA).reshape(*_SH)', t)
+    if b is None:
+        return None
+    return u(b['_SA']), u(b['_SH'])
 
 
 def d_concat(ck, mod):
     rule = 'C15.D3.parallel'
-    fn = mod.func('load_as_concatenated')
+    F = 'load_as_concatenated'
+    fn = mod.func(F)
     ck.analysed(mod, fn)
     fi = finfo(mod, fn)
-    # buffer sized from lengths
-    sa = [c for c in calls_in(fn) if call_name(c) == 'shared_array_like_trj']
-    ok = len(sa) == 1 and u(sa[0].args[0]) == 'lengths'
-    ck.check(ok, rule + '.buffer', mod, sa[0] if sa else fn, 'load_as_concatenated', u(sa[0])[:120] if sa else 'shared_array_like_trj', 'shared buffer sized from lengths', 'the shared buffer must be sized from `lengths`')
+    ps = params(fn)
+    if len(ps) < 4:
+        ck.missing(rule, 'load_as_concatenated(filenames, lengths, processes, args, ...) signature')
+        return
+    FN, L, ARGS = ps[0], ps[1], ps[3]
+
+    # --- buffer sized from lengths
+    sa = [c for c in calls_in(fn) if tail(c) == 'shared_array_like_trj']
+    FS = SA = None
+    Lbuf = None
+    if len(sa) != 1:
+        ck.missing(rule + '.buffer', 'call of shared_array_like_trj in load_as_concatenated (found %d)' % len(sa))
+    else:
+        a0 = callargs(sa[0]).get('lengths')
+        ok = isinstance(a0, ast.Name) and a0.id == L
+        ck.check(ok, rule + '.buffer', mod, sa[0], F, u(sa[0])[:120], 'shared buffer sized from lengths', 'the shared buffer must be sized from `lengths`')
+        Lbuf = a0 if ok else None
+        s0 = fi.stmt(sa[0])
+        if isinstance(s0, ast.Assign) and isinstance(s0.targets[0], ast.Tuple) and len(s0.targets[0].elts) == 2 and \
+                all(isinstance(e, ast.Name) for e in s0.targets[0].elts):
+            FS, SA = (e.id for e in s0.targets[0].elts)
+        else:
+            ck.missing(rule + '.buffer', '`full_shape, shared_array = shared_array_like_trj(...)`')
     fs = ck.repo.mod(LO).func('shared_array_like_trj')
-    sh = [s for s in assigns_to(fs, 'full_shape') if isinstance(s, ast.Assign)]
-    ck.check(len(sh) == 1 and u(sh[0].value) == '(sum(lengths), shape[1], shape[2])', rule + '.buffer', mod, sh[0] if sh else fs, 'shared_array_like_trj', u(sh[0]) if sh else 'full_shape',
-             'first dimension = sum of lengths', 'full_shape must be (sum(lengths), n_atoms, 3)')
-    # offsets
-    ma = [c for c in calls_in(fn) if isinstance(c.func, ast.Attribute) and c.func.attr in ('map_async', 'map', 'imap', 'imap_unordered', 'starmap')
-          and '_load_to_position' in u(c)]
+    ck.analysed(mod, fs)
+    fsi = finfo(mod, fs)
+    fps = params(fs)
+    rr = [x for x in returns_of(fs) if x.value is not None]
+    if len(rr) != 1 or not (isinstance(rr[0].value, ast.Tuple) and len(rr[0].value.elts) == 2) or len(fps) < 2:
+        ck.missing(rule + '.buffer', 'shared_array_like_trj returning (full_shape, shared_array)')
+    else:
+        sh = X(fsi, rr[0].value.elts[0])
+        forms = ['(sum(%s), %s.xyz.shape[1], %s.xyz.shape[2])' % (fps[0], fps[1], fps[1]), '(sum(%s),) + %s.xyz.shape[1:]' % (fps[0], fps[1]),
+                 '(sum(%s), *%s.xyz.shape[1:])' % (fps[0], fps[1])]
+        v = classify(sh, forms, scope={fps[0], fps[1]})
+        ck.decide(v, rule + '.buffer', mod, rr[0], 'shared_array_like_trj', 'full_shape = %s' % u(sh), 'first dimension = sum of lengths',
+                  'full_shape must be (sum(lengths), n_atoms, 3)')
+        # the array allocated has that many elements
+        sav = resolve(fsi, rr[0].value.elts[1])
+        if isinstance(sav, ast.Call) and call_name(sav) == 'mp.Array' and len(sav.args) >= 2:
+            n = X(fsi, sav.args[1])
+            fsn = rr[0].value.elts[0]
+            shape_txts = {u(sh)} | ({fsn.id} if isinstance(fsn, ast.Name) else set())
+            ok = any(match(p, n) is not None and u(match(p, n)['_F']) in shape_txts for p in ('reduce(mul, _F, 1)', 'reduce(mul, _F)', 'int(np.prod(_F))', 'math.prod(_F)'))
+            ok = ok or any(u(n) == C(p % u(fsn)) for p in ('reduce(mul, %s, 1)', 'reduce(mul, %s)', 'int(np.prod(%s))', 'math.prod(%s)'))
+            if ok:
+                ck.ok(rule + '.buffer', mod, sav, u(sav)[:120], 'shared array holds prod(full_shape) elements')
+            else:
+                ck.missing(rule + '.buffer', 'size of the shared mp.Array not recognised: %s' % u(n)[:120])
+        else:
+            ck.missing(rule + '.buffer', 'allocation of the shared array (mp.Array) in shared_array_like_trj')
+
+    # --- the pool map of the worker
+    def worker_of(c):
+        if not c.args:
+            return None
+        f = resolve(fi, c.args[0])
+        if isinstance(f, ast.Name) and f.id == WORKER:
+            return f
+        if isinstance(f, ast.Call) and tail(f) == 'partial' and f.args and isinstance(f.args[0], ast.Name) and f.args[0].id == WORKER:
+            return f
+        return None
+    ma = [c for c in calls_in(fn) if isinstance(c.func, ast.Attribute) and c.func.attr in MAPS and worker_of(c) is not None]
     if len(ma) != 1:
-        ck.missing(rule, 'pool map of _load_to_position')
+        ck.missing(rule, 'pool map of %s (found %d)' % (WORKER, len(ma)))
         return
     c = ma[0]
-    ck.check(c.func.attr in ('map_async', 'map', 'imap'), rule + '.ordered', mod, c, 'load_as_concatenated', 'p.%s(...)' % c.func.attr,
+    ck.check(c.func.attr in MAPS_ORDERED, rule + '.ordered', mod, c, F, 'p.%s(...)' % c.func.attr,
              'worker results are collected in submission (file) order',
              'results must be gathered with an order-preserving map: imap_unordered returns them in completion order, which depends on the schedule')
-    z = c.args[1] if len(c.args) > 1 else None
-    ok = isinstance(z, ast.Call) and call_name(z) == 'zip' and len(z.args) == 3 and u(z.args[1]) == 'filenames' and u(z.args[2]) == 'args' and \
-        u(z.args[0]).replace(' ', '') in ('[sum(lengths[0:i])foriinrange(len(lengths))]', '[sum(lengths[:i])foriinrange(len(lengths))]')
-    ck.check(ok, rule + '.offsets', mod, c, 'load_as_concatenated', u(z)[:160] if z is not None else '?',
-             'offset of file i = sum of the lengths before i (exclusive prefix sum), zipped with files and args in order',
-             'per-file offsets must be [sum(lengths[0:i]) for i in range(len(lengths))] zipped with (filenames, args): an inclusive sum or '
-             'another lengths list shifts every window')
-    # same lengths definition for buffer, offsets and return
-    r = returns_of(fn)
-    okr = len(r) == 1 and isinstance(r[0].value, ast.Tuple) and u(r[0].value.elts[0]) == 'lengths' and u(r[0].value.elts[1]) == 'xyz'
-    ck.check(okr, rule + '.lengths', mod, r[0] if r else fn, 'load_as_concatenated', u(r[0]) if r else 'return', 'returns (lengths, xyz)',
-             'load_as_concatenated must return (lengths, xyz) with the lengths that positioned the data')
-    if okr and sa:
-        a = sa[0].args[0]
-        b = r[0].value.elts[0]
-        names = [x for x in ast.walk(z) if isinstance(x, ast.Name) and x.id == 'lengths'] if z is not None else []
-        ok = isinstance(a, ast.Name) and fi.same_value(a, b) and all(fi.same_value(a, x) for x in names)
-        ck.check(ok, rule + '.lengths', mod, r[0], 'load_as_concatenated', 'lengths at buffer / offsets / return',
-                 'one definition of lengths sizes the buffer, positions the files and is returned',
-                 'the returned lengths are not the value that sized the buffer and positioned the files (e.g. rebuilt from worker '
-                 'results): they need not be in file order')
-    # total check
-    chk = [n for n in walk_local(fn) if isinstance(n, ast.If) and 'full_shape[0]' in u(n.test) and any(isinstance(x, ast.Raise) for x in n.body)]
-    ok = len(chk) == 1 and u(chk[0].test).replace(' ', '') == 'sum((s[0]forsinshapes))!=full_shape[0]'
-    ck.check(ok, rule + '.total-check', mod, chk[0] if chk else fn, 'load_as_concatenated', u(chk[0].test) if chk else 'total check',
-             'the number of frames actually written must equal the buffer length, else raise', 'the total-frames check must compare the sum of loaded shapes with full_shape[0] and raise on mismatch')
-    if chk and r:
-        ck.check(fi.cfg.dominates(chk[0], r[0]), rule + '.total-check', mod, chk[0], 'load_as_concatenated', 'check before return', 'check precedes the return', 'the total check must precede the return')
-    # worker: writes only its window
-    fw = mod.func('_load_to_position')
-    ck.analysed(mod, fw)
-    st = [s for s in walk_local(fw) if isinstance(s, ast.Assign) and isinstance(s.targets[0], ast.Subscript) and u(s.targets[0].value) == 'arr']
-    ok = len(st) == 1 and u(st[0].targets[0].slice) == 'position:position + len(xyz)' and u(st[0].value) == 'xyz'
-    ck.check(ok, rule + '.window', mod, st[0] if st else fw, '_load_to_position', u(st[0]) if st else 'arr[...] = xyz',
-             'a worker writes exactly arr[position:position+len(xyz)]', 'each worker must store only arr[position:position + len(xyz)] = xyz (disjoint windows)')
-    up = [s for s in walk_local(fw) if isinstance(s, ast.Assign) and isinstance(s.targets[0], ast.Tuple) and u(s.value) == 'spec']
-    ck.check(len(up) == 1 and u(up[0].targets[0]) == '(position, filename, load_kwargs)', rule + '.window', mod, up[0] if up else fw, '_load_to_position', u(up[0]) if up else 'spec',
-             'spec unpacked as (position, filename, kwargs) - the order it is zipped in', 'spec must be unpacked in the order (position, filename, load_kwargs)')
-    ld = [c2 for c2 in calls_in(fw) if call_name(c2) == 'md.load']
-    ck.check(len(ld) == 1 and u(ld[0].args[0]) == 'filename' and any(k.arg is None and u(k.value) == 'load_kwargs' for k in ld[0].keywords), rule + '.window', mod, ld[0] if ld else fw,
-             '_load_to_position', u(ld[0]) if ld else 'md.load', 'file loaded with its own kwargs (stride, atom selection)', 'md.load(filename, **load_kwargs) expected')
-    # single-frame files: a length of 1 is inserted at the FILE index
-    ins = [c2 for c2 in calls_in(fn) if u(c2.func) == 'lengths.insert']
+    wf = worker_of(c)
+    if isinstance(wf, ast.Call) and FS is not None:
+        ck.check(u(kwarg(wf, 'arr_shape')) == FS, rule + '.window', mod, wf, F, u(wf), 'workers view the buffer with its full shape',
+                 'the worker must reshape the shared buffer to full_shape (arr_shape=full_shape)')
+    z = resolve(fi, c.args[1]) if len(c.args) > 1 else None
+    while isinstance(z, ast.Call) and call_name(z) in ('list', 'tuple') and len(z.args) == 1 and not z.keywords:
+        z = resolve(fi, z.args[0])          # a materialised zip is the same sequence
+    idx = None
+    if isinstance(z, ast.Call) and call_name(z) == 'zip' and len(z.args) == 3 and not z.keywords:
+        roles = []
+        for x in z.args:
+            roles.append('fn' if (isinstance(x, ast.Name) and x.id == FN) else 'args' if (isinstance(x, ast.Name) and x.id == ARGS) else 'off')
+        if sorted(roles) == ['args', 'fn', 'off']:
+            idx = {r: i for i, r in enumerate(roles)}
+    if idx is None:
+        ck.missing(rule + '.offsets', 'worker specs are not zip(<offsets>, filenames, args): %s' % (u(z)[:160] if z is not None else '?'))
+        off_names = []
+    else:
+        off = z.args[idx['off']]
+        offr = resolve(fi, off)
+        t = X(fi, off, stop=(L,))
+        forms = ['[sum(%s[0:_I]) for _I in range(len(%s))]' % (L, L), '[sum(%s[:_I]) for _I in range(len(%s))]' % (L, L),
+                 '[sum(%s[0:_I]) for _I in range(0, len(%s))]' % (L, L), '[sum(%s[:_I]) for _I in range(0, len(%s))]' % (L, L),
+                 '[0] + list(np.cumsum(%s)[:-1])' % L, '[0] + list(np.cumsum(%s[:-1]))' % L, 'np.concatenate(([0], np.cumsum(%s)[:-1]))' % L,
+                 'np.cumsum([0] + %s[:-1])' % L, 'np.cumsum([0] + list(%s[:-1]))' % L, 'np.cumsum(%s) - %s' % (L, L),
+                 'list(itertools.accumulate([0] + %s[:-1]))' % L]
+        v = classify(t, forms, scope={L})
+        ck.decide(v, rule + '.offsets', mod, c, F, 'zip(%s, ...)' % u(t)[:160],
+                  'offset of file i = sum of the lengths before i (exclusive prefix sum), zipped with files and args in order',
+                  'per-file offsets must be [sum(lengths[0:i]) for i in range(len(lengths))] zipped with (filenames, args): an inclusive sum or '
+                  'another lengths list shifts every window')
+        off_names = [x for x in ast.walk(offr) if isinstance(x, ast.Name) and x.id == L]
+    # --- same lengths definition for buffer, offsets and return
+    r = [x for x in returns_of(fn) if x.value is not None]
+    rt = resolve(fi, r[0].value) if len(r) == 1 else None
+    if not (isinstance(rt, ast.Tuple) and len(rt.elts) == 2):
+        ck.missing(rule + '.lengths', 'single `return <lengths>, <xyz>` of load_as_concatenated')
+        r = []
+    else:
+        rl = rt.elts[0]
+        if isinstance(rl, ast.Name) and rl.id == L:
+            ck.ok(rule + '.lengths', mod, r[0], u(r[0]), 'returns (lengths, xyz)')
+            if Lbuf is not None:
+                ok = fi.same_value(Lbuf, rl) and all(fi.same_value(Lbuf, x) for x in off_names)
+                ck.check(ok, rule + '.lengths', mod, r[0], F, 'lengths at buffer / offsets / return',
+                         'one definition of lengths sizes the buffer, positions the files and is returned',
+                         'the returned lengths are not the value that sized the buffer and positioned the files (e.g. rebuilt from worker '
+                         'results): they need not be in file order')
+        elif L in names_loaded(X(fi, rl)):
+            ck.missing(rule + '.lengths', 'returned lengths are derived from `%s` in a way the rule does not follow: %s' % (L, u(rl)[:120]))
+        else:
+            ck.bad(rule + '.lengths', mod, r[0], F, u(r[0]), 'load_as_concatenated must return (lengths, xyz) with the lengths that positioned the data: '
+                   'the returned lengths are not the value that sized the buffer and positioned the files (e.g. rebuilt from worker '
+                   'results): they need not be in file order')
+        if FS is not None and SA is not None:
+            vw = _view_of(fi, rt.elts[1])
+            if vw is None:
+                ck.missing(rule + '.lengths', 'returned coordinates are not the reshaped shared buffer: %s' % u(resolve(fi, rt.elts[1]))[:120])
+            else:
+                ck.check(vw == (SA, FS), rule + '.lengths', mod, r[0], F, 'xyz = view of %s with shape %s' % vw, 'the shared buffer is returned with its full shape',
+                         'the returned array must be the shared buffer reshaped to full_shape')
+    # --- total check
+    results = set()
+    for s in walk_local(fn):
+        if isinstance(s, ast.Assign) and len(s.targets) == 1 and isinstance(s.targets[0], ast.Name):
+            v0 = s.value
+            if v0 is c and c.func.attr in ('map', 'starmap'):
+                results.add(s.targets[0].id)
+            elif isinstance(v0, ast.Call) and isinstance(v0.func, ast.Attribute) and v0.func.attr == 'get' and not v0.args and \
+                    resolve(fi, v0.func.value) is c and c.func.attr in ('map_async', 'starmap_async'):
+                results.add(s.targets[0].id)
+            elif isinstance(v0, ast.Call) and call_name(v0) == 'list' and len(v0.args) == 1 and resolve(fi, v0.args[0]) is c and \
+                    c.func.attr in ('imap', 'imap_unordered'):
+                results.add(s.targets[0].id)
+    stop_r = tuple(results)
+    cands = []
+    for n in walk_local(fn):
+        if isinstance(n, ast.If) and any(isinstance(x, ast.Raise) for x in n.body):
+            names = names_loaded(X(fi, n.test, stop=stop_r))
+            if (names & results) and FS is not None and (FS in names or L in names):
+                cands.append(n)
+    if FS is None:
+        pass
+    elif not results:
+        ck.missing(rule + '.total-check', 'the worker results (<map>.get()) are not bound to a name')
+    elif not cands:
+        ck.bad(rule + '.total-check', mod, c, F, 'total check', 'the total-frames check is missing: the number of frames actually written (sum of the worker '
+               'results) must be compared with full_shape[0] and a mismatch must raise')
+    else:
+        chk = cands[0]
+        forms = []
+        for R in sorted(results):
+            for tot in ('%s[0]' % FS, 'sum(%s)' % L):
+                for s_ in ('sum((_S[0] for _S in %s))' % R, 'sum([_S[0] for _S in %s])' % R):
+                    forms += ['%s != %s' % (s_, tot), '%s != %s' % (tot, s_)]
+        tt = norm_test(X(fi, chk.test, stop=stop_r))
+        v = classify(tt, forms, scope=results | {FS, L})
+        ck.decide(v, rule + '.total-check', mod, chk, F, u(tt), 'the number of frames actually written must equal the buffer length, else raise',
+                  'the total-frames check must compare the sum of loaded shapes with full_shape[0] and raise on mismatch')
+        if r:
+            ck.check(fi.cfg.dominates(chk, r[0]), rule + '.total-check', mod, chk, F, 'check before return', 'check precedes the return', 'the total check must precede the return')
+    # --- worker: writes only its window
+    _worker(ck, mod, rule, idx)
+    # --- single-frame files: a length of 1 is inserted at the FILE index
+    ins = [c2 for c2 in calls_in(fn) if isinstance(c2.func, ast.Attribute) and c2.func.attr == 'insert' and u(c2.func.value) == L]
     for c2 in ins:
-        loop = mod.parent.get(fi.stmt(c2))
-        while loop is not None and not isinstance(loop, ast.For):
-            loop = mod.parent.get(loop)
-        ok = loop is not None and isinstance(loop.iter, ast.Call) and call_name(loop.iter) == 'enumerate' and \
-            len(loop.iter.args) == 1 and u(loop.iter.args[0]) == 'args' and isinstance(loop.target, ast.Tuple) and \
-            u(c2.args[0]) == u(loop.target.elts[0]) and const_value(c2.args[1]) == 1
-        g = mod.parent.get(fi.stmt(c2))
-        ok = ok and isinstance(g, ast.If) and u(g.test) == "'frame' in %s" % u(loop.target.elts[1])
-        ck.check(ok, rule + '.frame-insert', mod, c2, 'load_as_concatenated', 'for %s in %s: ... %s' % (
-            u(loop.target) if loop is not None else '?', u(loop.iter) if loop is not None else '?', u(c2)),
-                 'the length 1 of a single-frame file is inserted at that file\'s index in the file list',
-                 'lengths.insert(i, 1) must use the index of the file in `args` (enumerate(args) with the frame test inside the '
-                 'loop): enumerating only the frame entries gives positions in the filtered list, so the 1s land at the front and '
-                 'every offset after them is wrong')
-    # sounding uses each file's own stride
-    sm = [c2 for c2 in calls_in(fn) if isinstance(c2.func, ast.Attribute) and c2.func.attr == 'starmap']
-    ok = len(sm) == 1 and "kw.get('stride', 1)" in u(sm[0]) and 'zip(filenames, args)' in u(sm[0])
-    ck.check(ok, 'C15.D2.stride-lengths', mod, sm[0] if sm else fn, 'load_as_concatenated', u(sm[0])[:160] if sm else 'sounding', 'lengths sounded with each file\'s own stride', 'sounding must pass each file\'s stride')
+        loop = enclosing(mod, fi.stmt(c2), (ast.For,))
+        if loop is None or len(c2.args) != 2:
+            ck.missing(rule + '.frame-insert', 'loop around %s' % u(c2))
+            continue
+        txt = 'for %s in %s: ... %s' % (u(loop.target), u(loop.iter), u(c2))
+        why = ('lengths.insert(i, 1) must use the index of the file in `args` (enumerate(args) with the frame test inside the '
+               'loop): enumerating only the frame entries gives positions in the filtered list, so the 1s land at the front and '
+               'every offset after them is wrong')
+        v = classify(X(fi, loop.iter), ['enumerate(%s)' % ARGS, 'enumerate(%s, 0)' % ARGS, 'enumerate(%s, start=0)' % ARGS], scope={ARGS})
+        if v[0] != 'match':
+            ck.decide(v, rule + '.frame-insert', mod, c2, F, txt, '', why)
+            continue
+        if not (isinstance(loop.target, ast.Tuple) and len(loop.target.elts) == 2 and all(isinstance(e, ast.Name) for e in loop.target.elts)):
+            ck.missing(rule + '.frame-insert', 'loop target (i, kw) of %s' % txt)
+            continue
+        I, KW = (e.id for e in loop.target.elts)
+        ok = T(fi, c2.args[0]) == I and const_value(c2.args[1]) == 1 and const_value(c2.args[1]) is not True
+        ok = ok and guarded_by(guards_of(fi, fi.stmt(c2), within=loop), lambda q: q.op is ast.In and const_value(q.lhs) == 'frame' and T(fi, q.rhs) == KW)
+        ck.check(ok, rule + '.frame-insert', mod, c2, F, txt, 'the length 1 of a single-frame file is inserted at that file\'s index in the file list', why)
+    # --- sounding uses each file's own stride
+    sm = [c2 for c2 in calls_in(fn) if isinstance(c2.func, ast.Attribute) and c2.func.attr in ('starmap', 'map', 'imap') and c2.args and
+          isinstance(resolve(fi, c2.args[0]), ast.Name) and resolve(fi, c2.args[0]).id == 'sound_trajectory']
+    if len(sm) != 1 or sm[0].func.attr != 'starmap' or len(sm[0].args) != 2:
+        ck.missing('C15.D2.stride-lengths', 'pool.starmap(sound_trajectory, ...) in load_as_concatenated')
+    else:
+        t = X(fi, sm[0].args[1])
+        forms = ["[(_F, _K.get('stride', 1)) for _F, _K in zip(%s, %s) if 'frame' not in _K]" % (FN, ARGS),
+                 "[(_F, _K.get('stride', 1)) for (_F, _K) in zip(%s, %s) if not 'frame' in _K]" % (FN, ARGS)]
+        v = classify(t, forms, scope={FN, ARGS})
+        ck.decide(v, 'C15.D2.stride-lengths', mod, sm[0], F, u(t)[:200], 'lengths sounded with each file\'s own stride, in file order, single-frame files left out',
+                  'sounding must pass each file\'s own stride (kw.get(\'stride\', 1)) for the files of zip(filenames, args) without a `frame` argument')
+        s0 = fi.stmt(sm[0])
+        ok = isinstance(s0, ast.Assign) and len(s0.targets) == 1 and isinstance(s0.targets[0], ast.Name) and s0.targets[0].id == L and s0.value is sm[0]
+        ck.check(ok, 'C15.D2.stride-lengths', mod, s0, F, u(s0)[:120], 'the sounded lengths become `lengths`', 'the result of the sounding must be bound to `lengths` unchanged')
+        if v[0] == 'match' and not ins:
+            ck.bad(rule + '.frame-insert', mod, sm[0], F, 'no lengths.insert(i, 1)', 'single-frame files are left out of the sounding but their length 1 is never '
+                   'inserted into `lengths`: lengths is shorter than the file list and every later offset is wrong')
 
+
+def _worker(ck, mod, rule, idx):
+    F = WORKER
+    fw = mod.func(WORKER)
+    ck.analysed(mod, fw)
+    fi = finfo(mod, fw)
+    ps = params(fw)
+    if len(ps) < 2:
+        ck.missing(rule + '.window', '_load_to_position(spec, arr_shape) signature')
+        return
+    SPEC, SHP = ps[0], ps[1]
+    fields = {}
+    up = None
+    for s in walk_local(fw):
+        if isinstance(s, ast.Assign) and isinstance(s.value, ast.Name) and s.value.id == SPEC and isinstance(s.targets[0], (ast.Tuple, ast.List)) \
+                and all(isinstance(e, ast.Name) for e in s.targets[0].elts):
+            up = s
+            for i, e in enumerate(s.targets[0].elts):
+                fields[i] = e.id
+        elif isinstance(s, ast.Assign) and isinstance(s.targets[0], ast.Name) and isinstance(s.value, ast.Subscript) and \
+                isinstance(s.value.value, ast.Name) and s.value.value.id == SPEC and isinstance(const_value(s.value.slice), int):
+            fields[const_value(s.value.slice)] = s.targets[0].id
+            up = up or s
+    if idx is None:
+        idx = {'off': 0, 'fn': 1, 'args': 2}
+    if len(fields) != 3 or set(fields) != {0, 1, 2}:
+        ck.missing(rule + '.window', 'unpacking of spec into (position, filename, load_kwargs) in %s' % WORKER)
+        return
+    POS, FNAME, KW = fields[idx['off']], fields[idx['fn']], fields[idx['args']]
+    # the store
+    st = [(s, t) for s, t in subscript_stores(fw) if isinstance(s, ast.Assign) and _view_of(fi, t.value) is not None]
+    if len(st) != 1:
+        ck.missing(rule + '.window', 'exactly one store into the shared buffer view in %s (found %d)' % (WORKER, len(st)))
+        return
+    s, t = st[0]
+    vw = _view_of(fi, t.value)
+    stop_w = (POS, FNAME, KW)
+
+    def Xw(e, **kw):                       # the spec fields are roles: never expand them
+        return X(fi, e, stop=stop_w, **kw)
+
+    def Tw(e, **kw):
+        return u(Xw(e, **kw))
+    ck.check(vw == ('shared_array', SHP), rule + '.window', mod, s, F, 'view of %s with shape %s' % vw, 'the store goes to the shared buffer viewed with the full shape',
+             'the worker must write into _tonumpyarray(shared_array).reshape(arr_shape)')
+    V = s.value
+    vt = Tw(V, lenify=True)
+    sl = t.slice
+    if not (isinstance(sl, ast.Slice) and sl.step is None and sl.lower is not None and sl.upper is not None):
+        ck.bad(rule + '.window', mod, s, F, u(s), 'each worker must store only arr[position:position + len(xyz)] = xyz (disjoint windows)')
+        return
+    pair = ast.Tuple(elts=[Xw(sl.lower, lenify=True), Xw(sl.upper, lenify=True)], ctx=ast.Load())
+    forms = ['(%s, %s + len(%s))' % (POS, POS, vt), '(%s, len(%s) + %s)' % (POS, vt, POS)]
+    v = classify(pair, forms, scope={POS} | names_loaded(Xw(V)))
+    ck.decide(v, rule + '.window', mod, s, F, u(s), 'a worker writes exactly arr[position:position+len(xyz)]',
+              'each worker must store only arr[position:position + len(xyz)] = xyz (disjoint windows)')
+    # what is stored: the coordinates of this file loaded with its own kwargs
+    vr = resolve(fi, V)
+    ok = False
+    if isinstance(vr, ast.Attribute) and vr.attr == 'xyz' and isinstance(vr.value, ast.Call) and call_name(vr.value) == 'md.load':
+        ld = vr.value
+        ok = len(ld.args) == 1 and Tw(ld.args[0]) == FNAME and any(k.arg is None and Tw(k.value) == KW for k in ld.keywords) and \
+            all(k.arg is None for k in ld.keywords)
+        ck.check(ok, rule + '.window', mod, ld, F, u(ld), 'file loaded with its own kwargs (stride, atom selection)', 'md.load(filename, **load_kwargs) expected')
+    else:
+        ck.missing(rule + '.window', 'the stored value is not md.load(filename, **load_kwargs).xyz: %s' % u(vr)[:120])
+    ck.ok(rule + '.window', mod, up, u(up), 'spec unpacked as (position, filename, kwargs) - the order it is zipped in')
+    # the result reported to the parent is the shape of what was stored
+    rr = [x for x in returns_of(fw) if x.value is not None]
+    if len(rr) == 1:
+        v = classify(Xw(rr[0].value), ['%s.shape' % vt, '(len(%s),) + %s.shape[1:]' % (vt, vt)], scope=names_loaded(Xw(V)))
+        ck.decide(v, rule + '.total-check', mod, rr[0], F, u(rr[0]), 'the worker reports the shape of what it stored',
+                  'the worker must return xyz.shape: the parent sums the first entries to verify the total number of frames written')
+    else:
+        ck.missing(rule + '.total-check', 'single return of %s' % WORKER)
+
+
+# ---------------------------------------------------------------------------
+# D2: striped loaders (mpi/io.py)
 
 def d_striped(ck):
     rule = 'C15.D2.stride-lengths'
     mod = ck.repo.mod(IO)
-    for q, src, it in (('load_h5_as_striped', 's[0]', 'all_shapes'), ('load_npy_as_striped', 's[0]', 'specs')):
+    gl_of = {}
+    for q in ('load_h5_as_striped', 'load_npy_as_striped'):
         fn = mod.func(q)
         ck.analysed(mod, fn)
-        gl = [s for s in assigns_to(fn, 'global_lengths') if isinstance(s, ast.Assign)]
-        ok = len(gl) == 1 and isinstance(gl[0].value, ast.ListComp) and is_ceil_div(gl[0].value.elt, src) and u(gl[0].value.generators[0].iter) == it
-        ck.check(ok, rule, mod, gl[0] if gl else fn, q, u(gl[0]) if gl else 'global_lengths', 'global lengths = ceil(rows / stride)',
-                 '%s passes `stride` to the data but its lengths must be ceil(n / stride) too' % q)
+        fi = finfo(mod, fn)
+        ps = params(fn)
+        STRIDE = ps[1] if len(ps) > 1 else 'stride'
+        rr = [x for x in returns_of(fn) if x.value is not None]
+        if len(rr) != 1 or not (isinstance(rr[0].value, ast.Tuple) and len(rr[0].value.elts) == 2 and isinstance(rr[0].value.elts[0], ast.Name)):
+            ck.missing(rule, 'single `return <global lengths>, <data>` of %s' % q)
+            continue
+        GL = rr[0].value.elts[0]
+        gl_of[q] = GL
+        gv = resolve(fi, GL)
+        gsite = fi.stmt(gv) if gv is not GL else rr[0]
+        sc = single_comp(gv)
+        if sc is None:
+            ck.missing(rule, 'global lengths of %s are not a list comprehension: %s' % (q, u(gv)[:120]))
+            continue
+        elt, tgt, it, ifs = sc
+        first = tgt.elts[0] if isinstance(tgt, (ast.Tuple, ast.List)) and tgt.elts else tgt
+        v = ceil_div(X(fi, elt), STRIDE, set(target_names(tgt)))
+        if v[0] == 'match' and not (isinstance(first, ast.Name) and u(v[1]['_N']) == '%s[0]' % first.id):
+            v = ('far', 1, None)
+        ck.decide(v, rule, mod, gsite, q, u(gsite)[:200], 'global lengths = ceil(rows / stride)',
+                  '%s passes `stride` to the data but its lengths must be ceil(n / stride) too' % q)
+        # the sequence iterated holds the stored shapes, one per key / file
+        ok = isinstance(it, ast.Name) and not ifs
+        if ok:
+            shp = False
+            for site in fi.defs_of_use(it):
+                val = fi.def_value(site, it.id) if isinstance(site, ast.AST) else None
+                sc2 = single_comp(val) if val is not None else None
+                if sc2 is not None:
+                    e2 = sc2[0].elts[0] if isinstance(sc2[0], ast.Tuple) and sc2[0].elts else sc2[0]
+                    shp = shp or (isinstance(e2, ast.Attribute) and e2.attr == 'shape')
+            ok = shp
+        ck.check(ok, rule, mod, gsite, q, 'lengths over %s' % u(it), 'one length per stored array, in order', 'the global lengths must be computed from the shapes of all stored arrays, in order')
     fn = mod.func('load_npy_as_striped')
-    ll = [s for s in assigns_to(fn, 'local_lengths') if isinstance(s, ast.Assign)]
-    ok = len(ll) == 1 and (u(ll[0].value) == 'global_lengths[mpi.rank()::mpi.size()]' or
-                           (isinstance(ll[0].value, ast.ListComp) and is_ceil_div(ll[0].value.elt, 's[0]')))
-    ck.check(ok, rule, mod, ll[0] if ll else fn, 'load_npy_as_striped', u(ll[0]) if ll else 'local_lengths', 'local buffer sized from strided lengths', 'local_lengths must be the strided lengths of this rank\'s files')
+    fi = finfo(mod, fn)
+    GL = gl_of.get('load_npy_as_striped')
+    allocs = [n for n in walk_local(fn) if isinstance(n, ast.Assign) and isinstance(n.value, ast.Call) and (call_name(n.value) or '') in ('np.empty', 'np.zeros')]
+    if GL is None or len(allocs) != 1 or 'shape' not in callargs(allocs[0].value):
+        ck.missing(rule, 'allocation of the local buffer of load_npy_as_striped')
+    else:
+        sh = X(fi, callargs(allocs[0].value)['shape'], stop=(GL.id,))
+        mine = '%s[mpi.rank()::mpi.size()]' % GL.id
+        forms = ['(sum(%s),) + _S[1:]' % mine, '(sum(%s), *_S[1:])' % mine, '(sum(%s),) + tuple(_S[1:])' % mine]
+        v = classify(sh, forms, scope={GL.id, 'mpi'})
+        if v[0] != 'match':
+            # local lengths recomputed with the ceil form over this rank's files
+            b = match('(sum(_LL),) + _S[1:]', sh)
+            sc = single_comp(b['_LL']) if b is not None else None
+            if sc is not None:
+                v2 = ceil_div(sc[0], params(fn)[1] if len(params(fn)) > 1 else 'stride', set(target_names(sc[1])))
+                if v2[0] == 'match':
+                    v = ('far', 1, None)
+        ck.decide(v, rule, mod, allocs[0], 'load_npy_as_striped', 'shape=%s' % u(sh), 'local buffer sized from strided lengths',
+                  'the local buffer must be sized from the strided lengths of this rank\'s files (global_lengths[rank::size])')
+        ls = [orig(fi, n) for n in ast.walk(sh) if isinstance(n, ast.Name) and n.id == GL.id]
+        ck.check(bool(ls) and all(n is not None and fi.same_value(n, GL) for n in ls), rule, mod, allocs[0], 'load_npy_as_striped', 'lengths at buffer size vs lengths returned',
+                 'one definition of the global lengths sizes the local buffer and is returned', 'the lengths that size the local buffer are not the lengths returned')
     check_empty_allocs(ck, 'C15.D3.npy-fill', mod, [('load_npy_as_striped', fn)])
+
+
+def _part(ck, name, f, *a):
+    """Run one group of obligations; an unexpected shape that trips the rule
+    code itself is an unrecognised construct (incomplete), not a crash of the
+    whole check."""
+    try:
+        f(ck, *a)
+    except AnalysisIncomplete:
+        raise
+    except Exception as e:      # noqa: BLE001
+        ck.missing('C15', 'rule code could not analyse %s (%s: %s)' % (name, type(e).__name__, e))
+
+
+def d_stride_every_path(ck):
+    """Added after the seeding rounds (DESIGN.md 11.2, G3): `stride` must reach
+    the returned data on EVERY return path of every loader that takes it (a
+    branch that forgets it returns the unstrided data: loading with a stride
+    then differs from slicing the full load)."""
+    from . import extra
+    n = 0
+    ra = ck.repo.mod(RA)
+    n += extra.param_on_every_result_path(ck, 'C15.D2.stride-data.every-path', ra, 'load', 'stride',
+                                          why='e.g. a file with a single row')
+    io = ck.repo.mod('enspara/mpi/io.py')
+    for q in ('load_h5_as_striped', 'load_npy_as_striped'):
+        if q in io.functions:
+            n += extra.param_on_every_result_path(ck, 'C15.D2.stride-data.every-path', io, q, 'stride')
+    ck.floor('C15.D2.stride-data.every-path', n, 5, 'returns of loaded data in loaders with a stride parameter')
 
 
 def check(ck):
     mod = ck.repo.mod(RA)
-    d1_keys(ck, mod)
-    d_load(ck, mod)
+    _part(ck, 'ra.save', d1_keys, mod)
+    _part(ck, 'ra.load', d_load, mod)
     lo = ck.repo.mod(LO)
-    d_sound(ck, lo)
-    d_concat(ck, lo)
-    d_striped(ck)
+    _part(ck, 'sound_trajectory', d_sound, lo)
+    _part(ck, 'load_as_concatenated', d_concat, lo)
+    _part(ck, 'striped loaders', d_striped)
+    _part(ck, 'stride honoured on every path', d_stride_every_path)
     return EXPLANATION
